@@ -51,7 +51,12 @@ def decision_case(ctx):
     r2 = [(n_, "", "") if rng.random() < 0.15 else (n_, s_, q_) for n_, s_, q_ in r2]
     mode = rng.choice([None, "any", "both", "first"])
     a, b = rng.randint(0, 30), rng.randint(0, 30)
-    form = rng.choice(["a", "a:", ":b", "a:b"])
+    # a bound of 0 is a bound: that side takes part in the pair decision (and never fails -m, always... never exceeds -M only for empty reads)
+    if rng.random() < 0.25:
+        a = 0
+    if rng.random() < 0.25:
+        b = 0
+    form = rng.choice(["a", "a:", ":b", "a:b", "a:b"])
     spec = {"a": f"{a}", "a:": f"{a}:", ":b": f":{b}", "a:b": f"{a}:{b}"}[form]
     which = rng.choice(["-m", "-M"])
     argv = ["--no-index", which, spec]
